@@ -328,8 +328,8 @@ def policyCell (sl : List Cell) (shares : List ((Date × Date) × List ((Date ×
       pure (some c)
     | none => pure none
 
-/-- `_accident_quarter_to_policy_year_slice` -/
-def aqToPolicyYearSlice (sl : List Cell) (policyLen : Nat) (origin : Date) (continuous : Bool) :
+/-- `_accident_quarter_to_policy_year_slice` up to `Triangle(cells)` -/
+def aqToPolicyYearCells (sl : List Cell) (policyLen : Nat) (origin : Date) (continuous : Bool) :
     Except Err (List Cell) := do
   let re ← Triangle.rightEdge sl
   if (evaluationDates re).length > 1 then throw .valueError
@@ -338,7 +338,12 @@ def aqToPolicyYearSlice (sl : List Cell) (policyLen : Nat) (origin : Date) (cont
   let shares := aqShares (periods sl) pys policyLen continuous
   let cells ← pys.mapM fun py => (evaluationDates sl).mapM fun ev => policyCell sl shares py ev
   let cells := cells.flatten.filterMap id
-  let tri ← Triangle.ofCells cells
+  Triangle.ofCells cells
+
+/-- `_accident_quarter_to_policy_year_slice`: `Triangle(cells).derive_metadata(risk_basis="Policy")` -/
+def aqToPolicyYearSlice (sl : List Cell) (policyLen : Nat) (origin : Date) (continuous : Bool) :
+    Except Err (List Cell) := do
+  let tri ← aqToPolicyYearCells sl policyLen origin continuous
   Triangle.deriveMetadata tri (.riskBasis (some "Policy"))
 
 /-- `accident_quarter_to_policy_year(tri, policy_length_months, policy_year_origin,
